@@ -1,6 +1,6 @@
 #!/usr/bin/env python3
 """regress_seeds.py [jobs]  - every stored seeded change (/verif/seeded/*/patch.diff) is applied to its own SCRATCH worktree of /repo and the check of its own property is
-run against it (PANQEC_REPO=<scratch>); expected: exit 1.  Every stored behaviour-preserving refactoring (/verif/refactors/*/patch.diff) likewise with the checks recorded
+run against it (PANQEC_REPO=<scratch>); expected: exit 1.  Every stored behaviour-preserving refactoring (/verif/refactors/*/patch.diff) and property-preserving change of behaviour (/verif/preserving/*/patch.diff) likewise with the checks recorded
 in its meta.json; expected: exit 0.  /repo and /verif/evidence are not touched.  Prints one line per item and a summary; exit 1 if anything deviates."""
 import glob, json, os, subprocess, sys, tempfile
 from concurrent.futures import ThreadPoolExecutor
@@ -32,8 +32,11 @@ def run(item):
 items = [('seed', d) for d in sorted(glob.glob('/verif/seeded/C*')) if os.path.exists(d + '/patch.diff')]
 if '--seeds-only' not in sys.argv:
     items += [('refactor', d) for d in sorted(glob.glob('/verif/refactors/R-*')) if os.path.exists(d + '/patch.diff')]
+    items += [('preserving', d) for d in sorted(glob.glob('/verif/preserving/P-*')) if os.path.exists(d + '/patch.diff')]
 if '--refactors-only' in sys.argv:
     items = [i for i in items if i[0] == 'refactor']
+if '--preserving-only' in sys.argv:
+    items = [i for i in items if i[0] == 'preserving']
 bad = 0
 with ThreadPoolExecutor(jobs) as ex:
     for kind, name, out in ex.map(run, items):
